@@ -173,6 +173,27 @@ def run(rep):
                 break
             if not compare_built(rep, msg, v["bytes"], f"vector {k} variant {variant % 4}", dict(replay, variant=variant)):
                 break
+        # clone routes of the public API: DiameterMessage.convert() and copy() yield messages with the same content (same bytes),
+        # leave their source intact, and a change made to the clone does not reach the source
+        if not any(r["replay"].get("variant") == k for r in rep.violations[-2:]):
+            try:
+                with guard(10, "clone"):
+                    from bromelia.base import DiameterMessage
+                    msg = wirex.build_msg(m, byname, k)
+                    conv = DiameterMessage.convert(msg)
+                    ok = compare_built(rep, conv, v["bytes"], f"vector {k}: DiameterMessage.convert() of the built message", dict(replay, variant=k, clone="convert"))
+                    ok = ok and compare_built(rep, msg, v["bytes"], f"vector {k}: the source after DiameterMessage.convert()", dict(replay, variant=k, clone="convert"))
+                    if ok and hasattr(msg, "copy"):
+                        msg = wirex.build_msg(m, byname, k)
+                        cp = msg.copy()
+                        ok = compare_built(rep, cp, v["bytes"], f"vector {k}: copy() of the built message", dict(replay, variant=k, clone="copy"))
+                        if ok:
+                            from bromelia.avps import ProxyStateAVP
+                            cp.append(ProxyStateAVP(b"changed in the copy"))
+                            cp.header.hop_by_hop = bytes([0xfe, 0xdc, 0xba, 0x98])
+                            compare_built(rep, msg, v["bytes"], f"vector {k}: the source after its copy() was changed", dict(replay, variant=k, clone="copy"))
+            except BaseException as e:
+                rep.violation(f"convert() / copy() of in-domain content raised {type(e).__name__}: {e}", dict(replay, variant=k, clone="raise"))
         # fifth build path: grow every container by one AVP and pop it again (same final content)
         if m["avps"] and not any(r["replay"].get("variant") == k for r in rep.violations[-2:]):
             try:
